@@ -182,3 +182,15 @@ Theorem C18_file_history : forall (V : Type) (xs : list (hitem V)) (file : fstor
     roundtrip_history V file xs = map (roundtrip_item V) xs.
 Proof. exact history_independent. Qed.
 Print Assumptions C18_file_history.
+
+(* ---- negative clause of the segment view: m.segments[k] for ANY integer k (negative k wraps on the index table as
+   numpy does) either is refused or is the segment of a non-root vertex with that vertex's row and its parent's row as
+   end points; the root vertex never gets a segment.  The correspondence run probes -1, -(n-1), -n, -(n+1), n-1, n,
+   len on every view case and on every loaded morphology and compares each answer / refusal with segment_at. *)
+Theorem C18_view_answers_only_non_root : forall (V : Type) (m : amorph V),
+    no_floating V m = true -> valid_morphology V m = true ->
+    tree_parent (am_conn m) -> root_index (am_conn m) = Some 0 ->
+    forall k s, segment_at V m k = Some s ->
+      In (sg_id s) (non_root_vertices (am_conn m)) /\ expected_segment V m (sg_id s) = Some s.
+Proof. exact view_answers_only_non_root. Qed.
+Print Assumptions C18_view_answers_only_non_root.
